@@ -67,6 +67,7 @@ struct Crumb {
     std::atomic<uint64_t> variant;
     std::atomic<uint64_t> beat;     // incremented per case; used by the hang monitor
     std::atomic<int> active;        // 1 while inside a case
+    std::atomic<uint64_t> cases_in_proc;   // cases completed by the worker process that currently owns this slot
     char text[8192];                // optional free-form description of the current case (history harnesses)
 };
 
@@ -141,6 +142,7 @@ public:
     std::string crumb_text_of(int w) const { return std::string(sh->crumbs[w].text); }
     void crumb_done() {
         if (worker_id < 0) return;
+        sh->crumbs[worker_id].cases_in_proc.fetch_add(1, std::memory_order_relaxed);
         sh->crumbs[worker_id].active.store(0, std::memory_order_release);
     }
 
@@ -187,6 +189,7 @@ public:
                 worker_id = wid;
                 my_viol = 0;
                 vf = nullptr;
+                sh->crumbs[wid].cases_in_proc.store(0);
                 if (resume) {
                     work(unit, sub);
                     sh->units_done.fetch_add(1);
@@ -262,13 +265,17 @@ public:
             // abnormal: attribute to breadcrumb
             Crumb &c = sh->crumbs[w];
             int act = c.active.load();
-            if (!act) {
-                // died while NOT inside a case: that is harness code (enumerator, oracle, bookkeeping), never the library
-                fprintf(stderr, "HARNESS-ERROR worker %d died outside a case (status 0x%x); last case: %s\n", w, status, c.text[0] ? c.text : "(numeric crumb)");
+            if (!act && c.cases_in_proc.load() == 0) {
+                // died before it ran any case: that is harness code (enumerator, set-up), never the library
+                fprintf(stderr, "HARNESS-ERROR worker %d died outside a case (status 0x%x) before running any case\n", w, status);
                 for (int i = 0; i < nworkers; ++i) if (pids[i] > 0) kill(pids[i], SIGKILL);
                 while (waitpid(-1, nullptr, 0) > 0) {}
                 exit(2);
             }
+            // !act with completed cases: the process died between two cases (allocator abort, crash in a destructor or in
+            // harness bookkeeping). The harness code that runs there is the same code that runs on the unchanged tree
+            // without dying, so the cause is state left behind by an earlier case: reported against the last case
+            // completed, class crash-after-case.
             uint64_t unit = c.unit.load(), sub = c.sub.load(), var = c.variant.load();
             auto d = describe(unit, sub, var);
             Violation v;
@@ -277,7 +284,7 @@ public:
             if (c.text[0]) v.cs = c.text;   // history harnesses describe the case themselves
             if (act == 2) { v.cls = "hang"; v.msg = "no progress for " + std::to_string((int) hang_limit_s) + " s; worker killed"; ++res.hangs; }
             else {
-                v.cls = "crash";
+                v.cls = act ? "crash" : "crash-after-case";
                 if (WIFEXITED(status) && WEXITSTATUS(status) == 66) v.cls = "data-race";        // TSAN_OPTIONS=exitcode=66
                 if (WIFEXITED(status) && WEXITSTATUS(status) == 67) v.cls = "sanitizer-report";  // ASAN/UBSAN exitcode=67
                 std::ostringstream os;
